@@ -119,6 +119,8 @@ mod store;
 
 pub use crate::double_priority_queue::DoublePriorityQueue;
 pub use crate::priority_queue::PriorityQueue;
+#[cfg(priority_queue_verif)]
+pub use crate::store::VerifSnapshot;
 
 use indexmap::TryReserveError as IndexMapTryReserveError;
 use std::collections::TryReserveError as StdTryReserveError;
